@@ -235,6 +235,23 @@ class QuantDriver:
             pairs.append(("measurement==quantity", x, b))
         if ua == 0:
             pairs.append(("quantity==measurement", a, y))
+        # the other spellings the statement names: approximately(...) and Levels (of positive quantities)
+        try:
+            if ua > 0 and a.magnitude != 0:
+                rel = x.uncertainty.magnitude / abs(a.magnitude)        # approximately() takes a RELATIVE uncertainty
+                pairs.append(("approximately==measurement", m.approximately(a, rel), y))
+                pairs.append(("approximately==quantity", m.approximately(a, rel), b))
+            levels = []
+            for q0 in (a, b):
+                levels.append(q0.level(m.Decibel[1 * q0.unit]) if q0.magnitude > 0 else None)
+            if levels[0] is not None:
+                pairs += [("level==measurement", levels[0], y), ("level==quantity", levels[0], b)]
+                if levels[1] is not None:
+                    pairs.append(("level==level", levels[0], levels[1]))
+            if levels[1] is not None:
+                pairs.append(("measurement==level", x, levels[1]))
+        except Exception as ex:
+            mm.append(self._mm("C12", "measurement:level-or-approximately-construction-raised:%s" % type(ex).__name__, desc))
         for name, p, q in pairs:
             try:
                 r1 = p == q
